@@ -203,6 +203,8 @@ func specDefaultKnown(t parser.ValueType) bool {
 //@ func (*transpiler).evaluateAppCall
 //@   loop 1 invariant[C18] no-converter-call-yet: calls(AppCall) == 0 && forall(k, 0, calls(evaluateExpression), arg(evaluateExpression, k, 2))
 //@   loop 2 invariant[C18] no-converter-call-yet: calls(AppCall) == 0 && forall(k, 0, calls(evaluateExpression), arg(evaluateExpression, k, 2))
+//@   loop 2 invariant[C18] one-word-per-argument: len(args) == rangeindex + 1
+//@   loop 2 exit[C18] as-many-words-as-arguments: len(args) == len(nextCall.Args())
 //@   ensures[C04,C18] every-argument-value-is-used: forall(k, 0, calls(evaluateExpression), arg(evaluateExpression, k, 2))
 //@   ensures[C18] one-converter-call: err == nil ==> calls(AppCall) == 1 && arg(AppCall, 0, 1) == valueUsed && len(result0.values) == len(res(AppCall, 0, 0))
 //
